@@ -15,7 +15,7 @@ match_tag_prefix_and_name = re.compile(
     r'(?P<suffix>(?P<space>\s*)/?>)?',
     re.UNICODE | re.DOTALL)
 match_single_attribute = re.compile(
-    r'(?P<space>\s+)(?!\d)'
+    r'(?P<space>\s+)(?![0-9])'
     r'(?P<name>[^ =/>\n\t\r]+)'
     r'((?P<eq>\s*=\s*)'
     r'((?P<quote>[\'"])(?P<value>.*?)(?P=quote)|'
